@@ -83,6 +83,25 @@ _fn("C08", "differential runtime monitor: real IMAPClientCommand.parse() vs an i
     "proxy get BAD and the session survives.  Five open known findings are classified by mechanism.",
     "the reference reader (refparse.py) is hand-written from the ABNF and self-tested against the sentence generator", engine="refparse")
 
+_fn("C18", "runtime monitor: reference throttle automaton vs the real check_allow/login_failed on a harness clock (exhaustive bounded enumeration) + gate recorder and audit hook on the mail roots",
+    "Exploration, exhaustive on the bound in the thorough tier: every timed attempt sequence (one user/one address, gaps {1,59,61,121}, right/wrong, length <= 8; two users x two "
+    "addresses, gaps {1,61}, length <= 6) is run against the real throttle functions and must agree with the automaton of DESIGN appendix C at every step; random timed walks go "
+    "end-to-end through do_login and POP3 _do_pass under the virtual clock; generated pre-authentication command sequences (all commands, wrong/empty/prefix/suffix/case-changed "
+    "passwords, unusable/empty/garbage/unknown-algorithm hashes) go through the real front-end handlers with a recorder in place of the subprocess connection and an audit hook on "
+    "every mail root.",
+    "asimap.throttle.time replaced by a harness clock; scrypt-hashed fixture accounts; gaps exactly equal to the purge interval are not generated", engine="frontend")
+_fn("C19", "runtime monitor: reference tokenizer of the client byte stream vs the frames written by the real front-end under many segmentations; relay identity",
+    "Exploration: streams of 1-8 commands with synchronising / non-synchronising literals around the size limits (MAX_INPUT_SIZE lowered to 256/4096), literal text that looks like "
+    "commands, empty lines, trailing white space, cut into segments at none / one / random / every byte offset, are fed to the real server.IMAPClient.start(); the commands framed "
+    "for the user process (and de-framed by the real IMAPClientProxy.run()) must equal the reference tokenization, '+' continuations and BAD refusals must match in number; response "
+    "streams with CRLF-free runs up to 1 MiB must pass the real IMAP and POP3 msgs_to_client() unmodified.",
+    "recording writers replace the client socket and the connection to the user process; stream readers use the production limits", engine="frontend")
+_fn("C20", "runtime monitor: POP3 reply reader + session model (snapshot table, DELE marks) + IMAP observer of INBOX",
+    "Exploration: POP3 sessions (valid/invalid/repeated/marked numbers, QUIT / abrupt disconnect / no ending) over INBOXes with dot lines, lone dots, missing final newline, "
+    "8-bit and long lines and sparse UIDs, interleaved with IMAP APPEND/EXPUNGE/STORE, deliveries, number reuse and packing; the listing table, UIDL=IMAP UID, RETR identity by "
+    "content id, announced size = delivered octets after un-stuffing, termination, deletion only of the marked messages and only at QUIT are checked.",
+    "POP3 sessions run in the user process (POP3ClientProxy) at the same byte boundary as IMAP sessions")
+
 PENDING = "check under construction in this round; not yet validated against the unchanged tree and seeded changes"
 
 ALL = ["C%02d" % i for i in range(1, 21)]
@@ -117,6 +136,7 @@ def main():
         },
         "engines": [
             {"name": "rig+vloop", "path": "asimap_verif/rig.py", "serves_properties": sorted(CHECKS), "kind_free_text": "real per-user server in process, sessions at the byte boundary, virtual-time event loop, audit-hook guard + mount-namespace jail"},
+            {"name": "frontend", "path": "asimap_verif/props/c19.py", "serves_properties": ["C18", "C19"], "kind_free_text": "real server.IMAPClient / POP3Client / IMAPSubprocessInterface objects with fed StreamReaders and recording writers"},
             {"name": "refparse", "path": "asimap_verif/refparse.py", "serves_properties": ["C08"], "kind_free_text": "independent reference reader of the RFC 3501 command grammar"},
             {"name": "wire", "path": "asimap_verif/wire.py", "serves_properties": sorted(CHECKS), "kind_free_text": "strict independent IMAP response / POP3 reply parser (oracle for C07, decoder for all)"},
         ],
